@@ -51,12 +51,13 @@ MC_WRITER = model('MC_Writer', 'MC_Writer_quick.cfg', 'MC_Writer_thorough.cfg', 
 MC_FORMAT = model('MC_Format', 'MC_Format_quick.cfg', 'MC_Format_thorough.cfg', need=['len'], cap=dict(quick=800, thorough=20000))
 MC_MIXED = model('MC_Mixed', 'MC_Mixed_quick.cfg', 'MC_Mixed_thorough.cfg', need=['autotag'], cap=dict(quick=400, thorough=6000))
 MC_V1_LIVE = model('MC_StreamV1', 'MC_StreamV1_live.cfg', 'MC_StreamV1_live.cfg')
+MC_IPTEXT = model('MC_IpText', 'MC_IpText_quick.cfg', 'MC_IpText_thorough.cfg', need=['ok'], cap=dict(quick=5000, thorough=200000), tt=3000)
 MC_CONVERT = model('MC_Convert', 'MC_Convert.cfg', 'MC_Convert.cfg', need=['op'])
 
 PROPS = {
     'C01': dict(
         gens=dict(quick=V1_QUICK + IPTEXT_QUICK, thorough=V1_THOROUGH + IPTEXT_THOROUGH),
-        models=[MC_V1_DEEP],
+        models=[MC_V1_DEEP, MC_IPTEXT],
         rule='stream sessions (a v1-shaped byte stream delivered in chunks, every entry point re-run after each chunk); '
              'an event is non-trivial when the buffer contains a CR, i.e. a candidate line exists; distinct = distinct '
              '(stream prefix) inputs',
@@ -109,7 +110,7 @@ PROPS = {
     'C08': dict(
         gens=dict(quick=g('format', fmtshapes=220, fmtrand=300) + IPTEXT_QUICK + g('stream', v1good=100),
                   thorough=g('format', fmtshapes=6561, fmtrand=30000) + IPTEXT_THOROUGH + g('stream', v1good=3000)),
-        models=[MC_FORMAT, MC_V1],
+        models=[MC_FORMAT, MC_V1, MC_IPTEXT],
         rule='Display of address values (every zero-run shape in thorough, random pairs) parsed back through the four '
              'text entry points, plus Display of parsed headers; every event is non-trivial; distinct = distinct values',
     ),
@@ -140,7 +141,7 @@ PROPS = {
     'C12': dict(
         gens=dict(quick=g('stream', v1corrupt=400, v2corrupt=300) + IPTEXT_QUICK,
                   thorough=g('stream', v1corrupt=12000, v2corrupt=9000) + IPTEXT_THOROUGH),
-        models=[MC_V1_DEEP, MC_V2],
+        models=[MC_V1_DEEP, MC_V2, MC_IPTEXT],
         rule='sessions tagged with (well-formed base, element, replacement); the specification re-derives the corrupted '
              'input and whether the replacement qualifies; non-trivial = qualifying corruption observed at the end of '
              'the line / header; distinct = distinct corrupted inputs',
